@@ -1565,7 +1565,7 @@ class Container:
 
         if numerator == 'U':
             if not solute.is_enzyme():
-                raise TypeError("Solute must be an enzyme.")
+                raise ValueError("Solution is impossible to create. (Only an enzyme is measured in activity units.)")
 
         if new_ratio <= 0:
             raise ValueError("Solution is impossible to create.")
